@@ -238,6 +238,57 @@ pub fn run() -> i32 {
                 eprintln!("SELFTEST-FAIL: c19_references disagrees with the implementation at position {}", pos);
             }
         }
+        for test in 0..2u8 {
+            for lk in 0..=5u8 {
+                for cfg in 0..8u8 {
+                    for hf in 0..2u8 {
+                        crate::sym::load(vec![vec![test], vec![lk], vec![cfg], vec![hf]]);
+                        n += 1;
+                        if std::panic::catch_unwind(|| crate::node::c14_select()).is_err() {
+                            c11_bad += 1;
+                            eprintln!("SELFTEST-FAIL: c14_select reference disagrees with the evaluator: test={} kind={} map={} fn={}", test, lk, cfg, hf);
+                        }
+                    }
+                }
+            }
+        }
+        for op in 0..2u8 {
+            for lk in 0..8u8 {
+                for rk in 0..8u8 {
+                    for (p0, p1) in [(0i64, 0i64), (1, 1), (2, 2), (-1, -1), (i64::MAX, i64::MAX), (0, 1), (1, 0), (i64::MIN, 3)] {
+                        crate::sym::load(vec![vec![op], vec![lk], vec![rk], p0.to_le_bytes().to_vec(), p1.to_le_bytes().to_vec()]);
+                        n += 1;
+                        if std::panic::catch_unwind(|| crate::node::c14_access()).is_err() {
+                            c11_bad += 1;
+                            eprintln!("SELFTEST-FAIL: c14_access reference disagrees with the evaluator: op={} kinds=({},{}) payloads=({},{})", op, lk, rk, p0, p1);
+                        }
+                    }
+                }
+            }
+        }
+        for kind in 0..2u8 {
+            for nl in 0..=3u8 {
+                for nr in 0..=3u8 {
+                    for bits in 0..18u8 {
+                        let (alias, sl, sr) = (bits / 9, 1 + bits % 3, 1 + (bits / 3) % 3);
+                        crate::sym::load(vec![vec![kind], vec![nl], vec![nr], vec![alias], vec![sl], vec![sr]]);
+                        n += 1;
+                        if std::panic::catch_unwind(|| crate::node::c14_concat()).is_err() {
+                            c11_bad += 1;
+                            eprintln!("SELFTEST-FAIL: c14_concat: kind={} lens=({},{}) alias={} counts=({},{})", kind, nl, nr, alias, sl, sr);
+                        }
+                    }
+                }
+            }
+        }
+        for code in 0..=5u8 {
+            crate::sym::load(vec![vec![code]]);
+            n += 1;
+            if std::panic::catch_unwind(|| crate::node::c02_unsupported_nodes()).is_err() {
+                c11_bad += 1;
+                eprintln!("SELFTEST-FAIL: c02_unsupported_nodes: program {} is not an execution error", code);
+            }
+        }
         // call nodes
         for nargs in 0..=3u8 {
             for bits in 0..8u8 {
